@@ -444,6 +444,10 @@ func (t Table) Lookup(req *http.Request, trace string, pick picker, match matche
 	for _, h := range hosts {
 		if target = t.lookup(h, req.URL.Path, trace, pick, match); target != nil {
 			if target.RedirectCode != 0 {
+				// the redirect url belongs to this request but the target is
+				// shared with all other requests: build it on a copy
+				redirect := *target
+				target = &redirect
 				req.URL.Host = req.Host
 				target.BuildRedirectURL(req.URL) // build redirect url and cache in target
 				// the scheme the client used: as reported by a proxy in front of
